@@ -171,7 +171,7 @@ type model struct {
 
 func newModel(ids []int64, ping bool) *model {
 	m := &model{ids: ids, state: make([]int, len(ids)), retried: make([]bool, len(ids)), tok: make([]string, len(ids)),
-		det: make([]bool, len(ids)), ping: ping, pingDet: true, classes: map[string]bool{}}
+		det: make([]bool, len(ids)), ping: ping, pingDet: true}
 	for i := range m.det {
 		m.det[i] = true
 	}
